@@ -396,6 +396,13 @@ def cache_discipline(model, rep, classes, exempt=None, skip_guard_rule=False):
             q = '%s.%s' % (cname, cm.name)
             for f in cache.check_method(model, cm):
                 rep.ob(f.rule, mod, f.node, f.text, f.ok, f.msg, engine='cache', qual=q)
+    # remembered derived values are reset by every writer of what they were computed from
+    rep.rule('memo-invalidated-by-writers', 'a method that writes an attribute from which a remembered value was computed resets that value')
+    for entry in classes:
+        ci = model.cls(entry[0], entry[1])
+        for ma in cache.find_memo_attrs(model, ci):
+            for f in cache.check_invalidation(model, ci, ma):
+                rep.ob(f.rule, model.mod(entry[0]), f.node, f.text, f.ok, f.msg, engine='cache')
     rep.count('methods examined for caches / shortcuts', nmeth)
     rep.ob('memo-key-complete', None, None, 'cache discipline evaluated on %d method(s) of %s' % (nmeth, ', '.join(e[1] for e in classes)),
            True, nontrivial=False, engine='cache')
